@@ -773,7 +773,7 @@ func sortDet(r *core.Run, rule string, scope map[*ssa.Function]bool) {
 					if ef.Kind == "pool" {
 						continue
 					}
-					if ef.Kind == "mapset" && strings.Contains(ef.Detail, "fpCache") {
+					if ef.Kind == "mapset" && strings.HasSuffix(ef.MapType, "ssa.Instruction]string") {
 						continue // memo of a pure per-element key (table: zipper fingerprint cache)
 					}
 					bad = ef.Kind + " on " + ef.Detail
